@@ -67,3 +67,18 @@ CHECKS["C20"] = dict(
           "with the same parts and re-renders; a bumped version is greater under VerCmp (for {pycalver} also as a plain string). Conformance: rt1 and incr1 events from v1version and "
           "`bumpver test V '{...}'`, CLI chains of 200 (thorough 1,000) bumps, and per pattern the same inputs through `test`, `update --dry`, `update` and `show`, which must agree."),
     note=_NOTE, ref="DESIGN.md section 6, C20")
+CHECKS["C03"] = dict(
+    technique="TLA+ spec of file rewriting (BVRewrite) model-checked with TLC + trace validation of files before/after real `update` runs on generated layouts",
+    text=("Design level: over layouts of up to 3 (thorough 4) lines built from 11 line kinds (occurrences of two patterns alone, together in either order, with text around) x 3 separators "
+          "TLC checks NoStaleOccurrence (searching the NEW text every configured pattern shows the new version), OnlySpansChange, MissingPatternRefused, DiffRoundTrip; the repaired "
+          "defect S2 is kept as a switch whose TRUE setting must be rejected (self-test of the invariants). Conformance: hundreds (thorough 20,000) of generated projects - 1..5 files x "
+          "1..4 patterns, shared lines, globs, four line-ending regimes - are updated by the real bumpver; each configured file's text before and after is a `rewrite` event whose expected "
+          "text the trace spec computes with its own Search/Render, naming the failing clause; the layout's well-formedness is decided by the spec."),
+    note=_NOTE, ref="DESIGN.md section 6, C03")
+CHECKS["C04"] = dict(
+    technique="TLA+ spec of file rewriting (BVRewrite) model-checked with TLC + trace validation of bytes before/after real `update` runs under two process locales",
+    text=("Design level: as C03, plus Join(Split(t)) = t and separator precedence for every text over {a, CR, LF} up to 7 (thorough 9) symbols. Conformance: layouts with hostile filler "
+          "(BOM, CJK, combining marks, control characters, regex metacharacters), LF/CRLF/CR/mixed endings, with/without final newline, run in process (UTF-8) and again in a subprocess with "
+          "LC_ALL=C and UTF-8 mode off; the trace spec checks that each new text is the old one outside the matched spans (clauses line-structure, unmatched-line-changed, "
+          "text-outside-span-changed); unconfigured files are compared byte for byte with mtime; both locales must give identical bytes."),
+    note=_NOTE, ref="DESIGN.md section 6, C04")
